@@ -117,7 +117,7 @@ func init() {
 		plan.Stages = append(plan.Stages, &Stage{Name: "kernels", LoadDir: repoDir, Patterns: []string{"./generator"}, Units: []*Unit{ku}, Regex: "^VH_C12_"})
 		// which obligations are re-run on which fresh packages
 		props := []string{"C04", "C03"}
-		pkgs := []string{"mtags", "moneof", "mscalar"}
+		pkgs := []string{"mtags", "moneof", "mscalar", "munpacked"}
 		if tier == "thorough" {
 			props = []string{"C01", "C02", "C03", "C04", "C05", "C06", "C07", "C08", "C09", "C11", "C14", "C19"}
 			pkgs = okPkgs
